@@ -433,6 +433,17 @@ func c16Cases(full bool) []c16Case {
 			add("status", "reject", s, "")
 		}
 	}
+	if full {
+		seen := map[string]bool{}
+		for _, s1 := range editNeighbours("HTTP/1.1 200 OK", []string{" ", "1", "x"}) {
+			for _, s2 := range editNeighbours(s1, []string{" ", "1", "x"}) {
+				if !seen[s2] && !inStatusGrammar(s2) {
+					seen[s2] = true
+					add("status", "reject", s2, "")
+				}
+			}
+		}
+	}
 	for _, s := range []string{"", "HTTP/1.1 -5 X", "HTTP/1.1 99 X", "HTTP/1.1 1000 X", "HTTP/1.1 99999 X", "HTTP/1.1 2e2 X", "garbage 200 OK", "200 OK", "HTTP/1.1 200", "HTTP/1.1  200 OK", "ICY 200 OK", "HTTP/1.1 +200 OK", "HTTP/1.1 0200 OK", "HTTP/1.1 0x10 OK", "HTTP/1.1 ２００ OK"} {
 		if !inStatusGrammar(s) {
 			add("status", "reject", s, "")
@@ -441,7 +452,7 @@ func c16Cases(full bool) []c16Case {
 	// ETag
 	maxLen := 2
 	if full {
-		maxLen = 3
+		maxLen = 4
 	}
 	for _, t := range c04Tags(maxLen) {
 		add("etag", "roundtrip", t, "")
@@ -477,6 +488,17 @@ func c16Cases(full bool) []c16Case {
 	cv := "20200102T030405Z"
 	nb := editNeighbours(cv, []string{"0", "9", "T", "Z", "-", " "})
 	nb = append(nb, "20200102T030405", "20200102t030405Z", "20201302T030405Z", "20200230T030405Z", "20200102T250405Z", "20200102T036005Z", "2020-01-02T03:04:05Z", "20200102", "", "20200102T030405z", "20200102T030405+0000")
+	if full {
+		seen := map[string]bool{}
+		for _, s1 := range editNeighbours(cv, []string{"0", "T", "Z"}) {
+			for _, s2 := range editNeighbours(s1, []string{"0", "T", "Z"}) {
+				if !seen[s2] {
+					seen[s2] = true
+					nb = append(nb, s2)
+				}
+			}
+		}
+	}
 	for _, s := range nb {
 		if !inCalDateGrammar(s) {
 			add("caldate", "reject", s, "start")
@@ -496,7 +518,7 @@ func c16Cases(full bool) []c16Case {
 		for _, b := range names {
 			add("href", "roundtrip", "/"+a+"/"+b, "")
 			if full {
-				for _, cc := range names[:8] {
+				for _, cc := range names {
 					add("href", "roundtrip", "/"+a+"/"+b+"/"+cc, "")
 				}
 			}
